@@ -9,7 +9,7 @@ PROP = dict(
         level_text=("Monitored executions of the real encoder and decoder code for COBS, COBS/R, COBS/ZPE, COBS/ZPE+R and command "
                     "framing: every message length 0..520 (quick) / 0..770 (thorough) x 5 framings x 12/48 pattern-driver-split "
                     "variants, plus 80k / 2M PRNG cases with 1..4 structured messages (run lengths around 30/31, 222..224, 253..255, "
-                    "zero pairs, final byte around the open block code) encoded into one buffer; 24k / 400k producer/consumer histories on one encode array (3..8 frames, finished bytes released from the front as a transport / encode_array::shift does, then a message that is large against the space reserved up front); 240 / 4000 single pieces of 30000..70001 bytes; every mpt_array_push return value is compared with what its (wrapped) encoder really consumed and callers advance by it; 16k / 400k C++ encode_array cases (push(len,data) loops, push(const message&), shift() histories); "
+                    "zero pairs, final byte around the open block code) encoded into one buffer; 24k / 400k producer/consumer histories on one encode array (3..8 frames, finished bytes released from the front as a transport / encode_array::shift does, then a message that is large against the space reserved up front); 240 / 4000 single pieces of 30000..70001 bytes; every mpt_array_push return value is compared with what its (wrapped) encoder really consumed and callers advance by it; 16k / 400k C++ encode_array cases (push(len,data) loops, push(const message&), shift(k) / shift(0) histories); "
                     "2.4k / 41k messages through mpt.py encode_cobs/encode_command.  Each frame: zero-free + one final delimiter, "
                     "reference decode == message, real decode == message with input position exactly behind the delimiter.  "
                     "Exploration, not proof: messages longer than ~4 blocks and capacity schedules are sampled."),
@@ -35,12 +35,15 @@ PROP = dict(
                            "encode_array::shift": 10000, "monitor:library-decode-compare": 10000,
                            "monitor:consumed-equals-message": 20000, "monitor:push-return-vs-consumed": 200000,
                            "state:256+-released-bytes-in-front": 5000,
+                           "encode_array::shift(0)": 10000, "monitor:shift0-compare": 10000,
+                           "state:shift0-with-released-bytes-in-front": 5000, "state:shift0-with-open-block": 500,
+                           "state:shift0-kept-longer-than-released(overlap)": 500,
                            "state:single-piece-with-3+-progressing-encoder-calls": 1000}),
               dict(name="c01_python", src=["c01_python.c"], libs=["mptcore"], batch=64, timeout=40,
                    floors={"mpt.py:encode_cobs": 1500, "mpt.py:encode_command": 300,
                            "monitor:python-frame-through-c-decoder": 4000, "cases:ramp-every-length": 601})],
         rule=("case = (framing, driver in {raw encoder function with capacity schedule (start 0..8 / ~255 / NULL block; growth +1, "
-              "+k, just enough, doubling), mpt_array_push driven by a loop that advances by the returned size (optionally with finished bytes released from the front after each message; or one piece of 30000..70001 bytes), C++ encode_array::push (such loops, or one fragmented mpt::message; shift() between messages), mpt.py encoder}, 1..8 messages, per message a "
+              "+k, just enough, doubling), mpt_array_push driven by a loop that advances by the returned size (optionally with finished bytes released from the front after each message; or one piece of 30000..70001 bytes), C++ encode_array::push (such loops, or one fragmented mpt::message; shift(k) between messages, shift(0) compaction between messages and in the middle of a message), mpt.py encoder}, 1..8 messages, per message a "
               "split into push pieces (one piece, single bytes, two pieces cut at a block edge / inside a zero pair, PRNG "
               "composition)); frames are decoded one-shot, byte-wise and under a PRNG schedule (slack, segment sizes, 1..4 iovec "
               "fragments, MissingBuffer answer size, peek calls).  non-trivial = some message of the case contains a zero byte, "
